@@ -5,7 +5,7 @@ PROP = {'n_quick': 700,
  'audit_maxlen': 400,
  'rule': 'valid segwit addresses over network x blinded x {constructors p2wpkh/p2wsh/p2tr, v0 20/32, v1..16 length 2..40} x letter case, each with one sampled '
          'corruption: one data character, two data characters, the witness-version character (+ one more), a replacement in the other letter case, one or two '
-         'HRP characters; plus complete enumerations of all replacements at one or two fixed positions (quick: 6 sampled position pairs; thorough: every '
+         'HRP characters; for every sampled address all 2^len case patterns of the human-readable part with a lower- and an upper-case data part (kind c: only the two single-case forms may parse); for one address of each (network, blinded) class, in lower and in upper case, every replacement of one and of every two HRP characters by the other 65 characters of the HRP alphabet (kind r); plus complete enumerations of all replacements at one or two fixed positions (quick: 6 sampled position pairs; thorough: every '
          'position pair of an unblinded v0 and an unblinded v1 address, every single position and every pair containing one of 8 positions for two blinded '
          'addresses); distinct = distinct case line; non-trivial = the original parses as a segwit address',
  'trusted': ['the bech32/bech32m constants (generator, target residues, checksum length 6, 90-character and 2..40/20|32 limits) are transcribed by hand from '
@@ -24,7 +24,7 @@ TEXT = {'text': 'Kernel-checked: the checksum engine step is GF(2)-linear (C17_l
          'of the error pattern (C17_syndrome); for each of bech32, bech32m (upstream constants) and blech32, blech32m (constants re-read from '
          'src/blech32/mod.rs) the 31*1023 values Z^a(u) are pairwise distinct and non-zero (C17_table, vm_compute), hence a word of total length <= 1023 at '
          'Hamming distance 1 or 2 from a codeword is not a codeword (C17_two_errors), and a word within distance 2 of a bech32 (blech32) codeword is not a '
-         'bech32m (blech32m) codeword and vice versa for lengths <= 140 (C17_switch). Lifted to address strings by C17_address. The HRP clause and parsing '
+         'bech32m (blech32m) codeword and vice versa for lengths <= 140 (C17_switch). Lifted to address strings by C17_address. A string with letters of both cases anywhere (HRP included) is rejected by either decoder and never parses as a segwit address (C17_mixed_case, C17_mixed_case_address, C17_hrp_case: the case part of the HRP clause). The rest of the HRP clause and parsing '
          "under another network's parameters are partial (explicit residual disjunct).",
  'design_ref': 'DESIGN.md section 6, C17',
  'note': 'Trusted: Coq kernel incl. vm_compute; hand-written Gallina model of the bech32 0.11 engine/decoder and of src/blech32/decode.rs, src/address.rs; '
